@@ -636,3 +636,113 @@ Proof.
     + exact (resolve_keeps compat rel base sb Hwr Esb sr Esr Ek Hc).
     + exact (resolve_nokeeps compat rel base sb Hwr Hwb Esb Ek Hc).
 Qed.
+
+(* ---------------------------------------------------------------- relative base, compatibility option *)
+Lemma add_base_rel_base compat rel base : scheme base = None ->
+  add_base compat rel base = (URI_ERROR_ADDBASE_REL_BASE, empty_uri).
+Proof. intros H. unfold add_base, add_base_impl. rewrite H. reflexivity. Qed.
+
+Lemma strncmp_refl a : strncmp a a = 0%Z.
+Proof. induction a as [|x a IH]; [reflexivity|]. cbn [strncmp]. rewrite N.eqb_refl. destruct (x =? 0); [reflexivity|exact IH]. Qed.
+
+Lemma range_eqb_refl o : range_eqb o o = true.
+Proof.
+  unfold range_eqb, compare_range. destruct o as [a|]; [|reflexivity].
+  rewrite Z.sub_diag. cbn [Z.ltb Z.compare]. rewrite strncmp_refl. reflexivity.
+Qed.
+
+(* with the option and identical schemes the reference is resolved as if it had no scheme *)
+Lemma add_base_compat rel base : scheme base <> None -> scheme rel = scheme base ->
+  add_base true rel base = add_base true (set_scheme None rel) base.
+Proof.
+  intros Hb He. unfold add_base, add_base_impl. destruct (scheme base) as [sb|] eqn:Esb; [|congruence].
+  cbv zeta. rewrite He. cbn [scheme set_scheme is_some andb negb]. rewrite range_eqb_refl. reflexivity.
+Qed.
+
+(* the option changes nothing for a reference without scheme or with another scheme *)
+Lemma add_base_compat_other rel base :
+  is_some (scheme rel) && range_eqb (scheme base) (scheme rel) = false ->
+  add_base true rel base = add_base false rel base.
+Proof.
+  intros H. unfold add_base, add_base_impl. destruct (scheme base) as [sb|] eqn:Esb; [|reflexivity].
+  cbv zeta. cbn [andb negb]. rewrite H. reflexivity.
+Qed.
+
+(* ---------------------------------------------------------------- the authority, field by field *)
+Definition auth_fields (u : uri) :=
+  (userInfo u, hostText u, ip4 u, ip6 u, ipFuture u, portText u).
+
+(* at most one of the three host-data members is set (so for parsed URIs) *)
+Definition one_kind (u : uri) : bool :=
+  match ip4 u, ip6 u, ipFuture u with
+  | Some _, None, None | None, Some _, None | None, None, _ => true
+  | _, _, _ => false
+  end.
+
+Lemma auth_fields_copy d src : one_kind src = true -> auth_fields (copy_authority d src) = auth_fields src.
+Proof.
+  destruct src as [sc ui ht i4 i6 ifu po ps qu fr ab ow]. unfold one_kind, auth_fields, copy_authority.
+  usimpl. destruct i4, i6, ifu; intros H; try discriminate H; reflexivity.
+Qed.
+
+Lemma af_set_scheme v u : auth_fields (set_scheme v u) = auth_fields u. Proof. reflexivity. Qed.
+Lemma af_set_query v u : auth_fields (set_query v u) = auth_fields u. Proof. reflexivity. Qed.
+Lemma af_set_fragment v u : auth_fields (set_fragment v u) = auth_fields u. Proof. reflexivity. Qed.
+Lemma af_set_pathSegs v u : auth_fields (set_pathSegs v u) = auth_fields u. Proof. reflexivity. Qed.
+Lemma af_set_absolutePath v u : auth_fields (set_absolutePath v u) = auth_fields u. Proof. reflexivity. Qed.
+Lemma af_copy_path d src : auth_fields (copy_path d src) = auth_fields d. Proof. reflexivity. Qed.
+Lemma af_rds u : auth_fields (remove_dot_segments_absolute u) = auth_fields u. Proof. rewrite rds_nf. reflexivity. Qed.
+Lemma af_fixamb u : auth_fields (fix_ambiguity u) = auth_fields u. Proof. rewrite fixamb_nf. reflexivity. Qed.
+Lemma af_fixtrail u : auth_fields (fix_empty_trail_segment u) = auth_fields u. Proof. rewrite fixtrail_nf. reflexivity. Qed.
+Lemma af_merge u r : auth_fields (merge_path u r) = auth_fields u. Proof. rewrite merge_nf. reflexivity. Qed.
+Lemma af_resabs u : auth_fields (resolve_abs_flag u) = auth_fields u.
+Proof. rewrite resabs_nf. destruct (is_host_set u && absolutePath u); reflexivity. Qed.
+
+#[export] Hint Rewrite af_set_scheme af_set_query af_set_fragment af_set_pathSegs af_set_absolutePath
+  af_copy_path af_rds af_fixamb af_fixtrail af_merge af_resabs : af_db.
+
+(* user info, host text, host kind and data, port: those of the reference when it keeps its scheme or has
+   an authority, else those of the base *)
+Theorem resolve_authority compat rel base : one_kind rel = true -> one_kind base = true ->
+  scheme base <> None ->
+  auth_fields (snd (add_base compat rel base))
+  = auth_fields (if keeps_scheme compat (scheme base) rel || is_host_set rel then rel else base).
+Proof.
+  intros Hr Hb Hs. unfold add_base, add_base_impl, keeps_scheme.
+  destruct (scheme base) as [sb|] eqn:Esb; [|congruence]. cbv zeta.
+  destruct (is_some (scheme rel) && negb (compat && is_some (scheme rel) && range_eqb (Some sb) (scheme rel))).
+  - cbn [snd orb]. autorewrite with af_db. apply auth_fields_copy. exact Hr.
+  - cbn [orb]. destruct (is_host_set rel).
+    + cbn [snd]. autorewrite with af_db. apply auth_fields_copy. exact Hr.
+    + destruct (pathSegs rel), (absolutePath rel); cbn [snd]; autorewrite with af_db;
+        apply auth_fields_copy; exact Hb.
+Qed.
+
+(* ---------------------------------------------------------------- the recomposed text *)
+Lemma concat_opt_pieces pre o post :
+  concat (opt_pieces pre o post) = match o with Some t => concat pre ++ t ++ concat post | None => [] end.
+Proof.
+  unfold opt_pieces. destruct o as [t|]; [|reflexivity].
+  rewrite !concat_app. cbn [concat]. rewrite app_nil_r. reflexivity.
+Qed.
+
+(* for a host that is printed as written (a registered name: no IP data) uriToString's text is the
+   RFC 5.3 recomposition of the five components *)
+Lemma to_text_recompose u : ip4 u = None -> ip6 u = None -> ipFuture u = None ->
+  to_text u = recompose (five_of_uri u).
+Proof.
+  intros H4 H6 Hf. unfold to_text, pieces, recompose, five_of_uri, auth_text, host_written, path_text, path_text_of.
+  cbn [f_scheme f_auth f_path f_query f_frag]. rewrite H4, H6, Hf.
+  rewrite !concat_app. rewrite !concat_opt_pieces. cbn [concat app].
+  f_equal.
+  assert (forall (o : option text) c, match o with Some t => c :: t ++ [] | None => [] end
+                                      = match o with Some t => c :: t | None => [] end) as Etail
+    by (intros o c; destruct o; rewrite ?app_nil_r; reflexivity).
+  rewrite !Etail. rewrite <- !app_assoc.
+  f_equal.
+  { destruct (is_host_set u); [|reflexivity]. cbn [concat]. f_equal.
+    rewrite !concat_app. rewrite !concat_opt_pieces. cbn [concat app]. rewrite Etail.
+    destruct (hostText u); [cbn [concat]; rewrite app_nil_r|]; reflexivity. }
+  f_equal.
+  destruct (absolutePath u || negb match pathSegs u with [] => true | _ :: _ => false end && is_host_set u); reflexivity.
+Qed.
